@@ -73,6 +73,21 @@ def run_function(prog, f, args, stubs, max_steps=400):
             if c is None:
                 return None
             return ev(children(s)[1 if c else 2])
+        if k == 'CompoundAssignOperator':
+            p = access_path(children(s)[0])
+            a = env.get(p) if p else None
+            b = ev(children(s)[1])
+            if p is None or a is None or b is None:
+                return None
+            op = (s.get('opcode') or '')[:-1]
+            try:
+                val = {'+': a + b, '-': a - b, '*': a * b, '&': a & b, '|': a | b, '^': a ^ b, '<<': a << b, '>>': a >> b}.get(op)
+            except (ValueError, OverflowError):
+                return None
+            if val is None:
+                return None
+            env[p] = val
+            return val
         return None
 
     while steps < max_steps:
@@ -95,7 +110,7 @@ def run_function(prog, f, args, stubs, max_steps=400):
                         return None
                     env[a.get('name')] = v
             elif k in ('BinaryOperator', 'CompoundAssignOperator', 'UnaryOperator', 'CallExpr'):
-                if ev(a) is None and k == 'BinaryOperator':
+                if ev(a) is None and k in ('BinaryOperator', 'CompoundAssignOperator'):
                     return None
         if node.kind == 'cond':
             c = ev(a)
